@@ -404,3 +404,182 @@ def class_scenarios(rng, count):
             b.expr(call(b.v("scope")))
         out.append(("cls:%d" % k, b.toks))
     return out
+
+
+# ---------------------------------------------------------------------------------------------------
+# C18: iterables of every kind x adapter chains x consumers x loop exits
+def iteration_scenarios(rng, count):
+    out = []
+    sources = ["vec0", "vec1", "vec3", "tuple0", "tuple2", "range-up", "range-down", "range-empty", "user", "user-early", "user-derived",
+               "iter-of-vec", "nested-vec"]
+    for k in range(count):
+        b = Builder()
+        # user-defined iterables
+        b.class_("Count", ctor="new")
+        b.method("upto", ["n"], "ctor"); b.expr(setf(b.v("self"), "n", b.v("n"))); b.expr(setf(b.v("self"), "i", lit(0))); b.end()
+        b.method("iter", []); b.ret(b.v("self")); b.end()
+        b.method("next", [])
+        b.if_(bin_(">=", get(b.v("self"), "i"), get(b.v("self"), "n"))); b.ret(inv(b.v("StopIter"), "new")); b.end()
+        b.expr(setf(b.v("self"), "i", bin_("+", get(b.v("self"), "i"), lit(1)))); b.ret(get(b.v("self"), "i")); b.end()
+        b.end()
+        b.class_("Evens", sup="Iter", ctor="new")
+        b.method("start", [], "ctor"); b.expr(setf(b.v("self"), "i", lit(0))); b.end()
+        b.method("next", [])
+        b.if_(bin_(">=", get(b.v("self"), "i"), lit(6))); b.ret(inv(b.v("StopIter"), "new")); b.end()
+        b.expr(setf(b.v("self"), "i", bin_("+", get(b.v("self"), "i"), lit(2)))); b.ret(get(b.v("self"), "i")); b.end()
+        b.end()
+        wrap_fn = rng.random() < 0.5
+        if wrap_fn:
+            b.fn("run", [])
+        src = rng.choice(sources)
+
+        def source():
+            if src == "vec0": return vec()
+            if src == "vec1": return vec(lit("only"))
+            if src == "vec3": return vec(lit(1), lit(2), lit(3))
+            if src == "tuple0": return tup()
+            if src == "tuple2": return tup(lit("a"), lit(4))
+            if src == "range-up": return rng_(0, 4)
+            if src == "range-down": return rng_(3, -1)
+            if src == "range-empty": return rng_(2, 2)
+            if src == "user": return inv(b.v("Count"), "upto", lit(3))
+            if src == "user-early": return inv(b.v("Count"), "upto", lit(0))
+            if src == "user-derived": return inv(b.v("Evens"), "start")
+            if src == "iter-of-vec": return inv(vec(lit(5), lit(6)), "iter")
+            return vec(vec(lit(1)), vec(), vec(lit(2), lit(3)))
+        rng_ = lambda a, c: {"k": "range", "l": lit(a), "r": lit(c)}
+        b.var("src", source())
+        numeric = src in ("vec3", "range-up", "range-down", "range-empty", "user", "user-early", "user-derived", "iter-of-vec")
+        chainable = src not in ("user", "user-early")        # plain user classes do not derive Iter
+        nchain = rng.randint(0, 3) if chainable else 0
+        e = b.v("src")
+        if nchain and src not in ("user-derived", "iter-of-vec"):
+            e = inv(e, "iter")
+        for c in range(nchain):
+            which = rng.choice(["map", "filter", "map-id"])
+            if which == "map":
+                e = inv(e, "map", b.lam(["x"], lambda: (bin_("*", b.v("x"), lit(2)) if numeric else tup(b.v("x"), lit(c)))))
+            elif which == "map-id":
+                e = inv(e, "map", b.lam(["x"], lambda: b.v("x")))
+            else:
+                e = inv(e, "filter", b.lam(["x"], lambda: (bin_("!=", b.v("x"), lit(2 + 2 * c)) if numeric else lit(c % 2 == 0))))
+        consumer = rng.choice(["for", "for", "for-break", "for-continue", "for-return", "collect", "reduce", "nested", "interleaved", "mutate", "manual-next"])
+        if consumer in ("collect", "reduce") and not (nchain or src in ("user-derived", "iter-of-vec")):
+            consumer = "for"
+        if consumer == "for":
+            b.for_("v", e); b.print(b.v("v")); b.end()
+        elif consumer == "for-break":
+            b.var("n", lit(0)); b.for_("v", e); b.expr(b.assign("n", bin_("+", b.v("n"), lit(1)))); b.if_(bin_("==", b.v("n"), lit(2))); b.break_(); b.end(); b.var("seen", b.v("v")); b.print(b.v("seen")); b.end(); b.print(b.v("n"))
+        elif consumer == "for-continue":
+            b.var("n", lit(0)); b.for_("v", e); b.expr(b.assign("n", bin_("+", b.v("n"), lit(1)))); b.if_(bin_("==", b.v("n"), lit(2))); b.continue_(); b.end(); b.print(b.v("v")); b.end(); b.print(b.v("n"))
+        elif consumer == "for-return":
+            b.fn("first", ["it"]); b.for_("v", b.v("it")); b.ret(tup(lit("first"), b.v("v"))); b.end(); b.ret(lit("none")); b.end(); b.print(call(b.v("first"), e))
+        elif consumer == "collect":
+            b.print(inv(e, "collect"))
+        elif consumer == "reduce":
+            b.print(inv(e, "reduce", b.lam(["acc", "x"], lambda: tup(b.v("acc"), b.v("x"))), lit("init")))
+        elif consumer == "nested":
+            b.var("it", e); b.for_("a", b.v("it")); b.for_("c", b.v("src")); b.print(tup(b.v("a"), b.v("c"))); b.end(); b.end()
+        elif consumer == "interleaved":
+            b.var("it", inv(e, "iter")); b.for_("a", b.v("it")); b.for_("c", b.v("it")); b.print(tup(b.v("a"), b.v("c"))); b.end(); b.end(); b.print(inv(b.v("it"), "next"))
+        elif consumer == "mutate":
+            b.var("w", vec(lit(1), lit(2), lit(3))); b.var("n", lit(0)); b.for_("v", b.v("w")); b.expr(b.assign("n", bin_("+", b.v("n"), lit(1))))
+            b.if_(bin_("==", b.v("n"), lit(1)))
+            if rng.random() < 0.5:
+                b.expr(inv(b.v("w"), "push", lit(9)))
+            else:
+                b.expr(inv(b.v("w"), "pop"))
+            b.end()
+            b.print(b.v("v")); b.end(); b.print(b.v("w"))
+        else:
+            b.var("it", inv(e, "iter")); b.print(inv(b.v("it"), "next")); b.print(inv(b.v("it"), "next")); b.for_("rest", b.v("it")); b.print(b.v("rest")); b.end(); b.print(inv(b.v("it"), "next"))
+        if wrap_fn:
+            b.end(); b.expr(call(b.v("run")))
+        b.print(lit("end"))
+        out.append(("iter:%d:%s:%d:%s" % (k, src, nchain, consumer), b.toks))
+    return out
+
+
+# ---------------------------------------------------------------------------------------------------
+# C17: which error, raised where in which call chain, caught or not
+def error_scenarios(rng, count):
+    out = []
+    kinds = ["type-add", "type-call", "name", "index", "value-derives", "attribute", "runtime-pop", "throw-string", "throw-number",
+             "throw-error", "throw-subclass", "host-AttributeError", "host-CompileError", "host-ImportError", "host-IndexError",
+             "host-NameError", "host-RuntimeError", "host-TypeError", "host-ValueError", "arity", "stack-overflow", "set-field", "range-type"]
+    links = ["fn", "method", "static", "lambda", "fiber", "ctor", "bound"]
+    for k in range(count):
+        b = Builder()
+        kind = rng.choice(kinds)
+        chain = [rng.choice(links) for _ in range(rng.randint(0, 4))]
+        caught_at = rng.choice([None, None, 0, len(chain)])       # None: uncaught; index of the level that catches
+        earlier = rng.random() < 0.3                              # a caught throw earlier in the run (stale location)
+        b.class_("MyErr", sup="Error", ctor="new"); b.method("make", ["c"], "ctor"); b.expr(b.superinv("new", b.v("c"))); b.end(); b.end()
+        b.class_("Host", ctor="new")
+        for i, link in enumerate(chain):
+            if link in ("method", "bound"):
+                b.method("m%d" % i, ["arg"]); b.var("pad%d" % i, lit(i)); b.ret(call(b.v("step%d" % (i + 1)), b.v("arg"))); b.end()
+            elif link == "static":
+                b.method("s%d" % i, ["arg"], "static"); b.ret(call(b.v("step%d" % (i + 1)), b.v("arg"))); b.end()
+            elif link == "ctor":
+                b.method("c%d" % i, ["arg"], "ctor"); b.expr(setf(b.v("self"), "r", call(b.v("step%d" % (i + 1)), b.v("arg")))); b.end()
+        b.end()
+        if earlier:
+            b.fn("earlier", []); b.try_(); b.throw(lit("old")); b.catch("e0"); b.end(); b.end(); b.expr(call(b.v("earlier")))
+        # innermost: the failing statement
+        n = len(chain)
+        b.fn("step%d" % n, ["arg"])
+        b.var("local", lit("live"))
+
+        def fail():
+            if kind == "type-add": b.print(bin_("+", lit(1), lit("a")))
+            elif kind == "type-call": b.expr(call(lit(3)))
+            elif kind == "name": b.print(b.v("undefined_thing"))
+            elif kind == "index": b.print(idx(vec(lit(1)), lit(5)))
+            elif kind == "value-derives": b.print(inv(lit(1), "derives", lit(2)))
+            elif kind == "attribute": b.expr(inv(lit(None), "foo"))
+            elif kind == "runtime-pop": b.expr(inv(vec(), "pop"))
+            elif kind == "throw-string": b.throw(lit("thrown text"))
+            elif kind == "throw-number": b.throw(lit(42))
+            elif kind == "throw-error": b.throw(inv(b.v("Error"), "new", lit("ctx of Error")))
+            elif kind == "throw-subclass": b.throw(inv(b.v("MyErr"), "make", lit("ctx of MyErr")))
+            elif kind.startswith("host-"): b.expr(call(b.v("host_fail"), lit(kind[5:])))
+            elif kind == "arity": b.expr(call(b.v("step%d" % n)))
+            elif kind == "stack-overflow": b.expr(call(b.v("step%d" % n), b.v("arg")))
+            elif kind == "set-field": b.expr(setf(lit(3), "f", lit(1)))
+            elif kind == "range-type": b.print({"k": "range", "l": lit(1), "r": lit("x")})
+        if caught_at == n:
+            b.try_(); fail(); b.catch("e"); b.print(tup(lit("caught"), call(b.v("type"), b.v("e")))); b.print(b.v("local")); b.end()
+        else:
+            fail()
+        b.ret(lit("ok"))
+        b.end()
+        for i in range(n - 1, -1, -1):
+            link = chain[i]
+            b.fn("step%d" % i, ["arg"])
+            b.var("keep%d" % i, lit("k%d" % i))
+            if link == "fn":
+                e = call(b.v("step%d" % (i + 1)), b.v("arg"))
+            elif link == "method":
+                e = inv(inv(b.v("Host"), "new"), "m%d" % i, b.v("arg"))
+            elif link == "bound":
+                b.var("bm", get(inv(b.v("Host"), "new"), "m%d" % i)); e = call(b.v("bm"), b.v("arg"))
+            elif link == "static":
+                e = inv(b.v("Host"), "s%d" % i, b.v("arg"))
+            elif link == "ctor":
+                e = inv(b.v("Host"), "c%d" % i, b.v("arg"))
+            elif link == "lambda":
+                b.var("lm", b.lam(["q"], lambda: call(b.v("step%d" % (i + 1)), b.v("q")))); e = call(b.v("lm"), b.v("arg"))
+            else:
+                b.var("fb", inv(b.v("Fiber"), "new", b.v("step%d" % (i + 1)))); e = inv(b.v("fb"), "call", b.v("arg"))
+            if caught_at == i and n > 0:
+                b.try_(); b.print(e); b.catch("e"); b.print(tup(lit("caught"), call(b.v("type"), b.v("e")), b.v("keep%d" % i))); b.end()
+            else:
+                b.print(e)
+            b.ret(lit("ok%d" % i))
+            b.end()
+        b.print(lit("start"))
+        b.print(call(b.v("step0"), lit(0)))
+        b.print(lit("end"))
+        out.append(("err:%d:%s:%s:%s" % (k, kind, "-".join(chain), caught_at), b.toks))
+    return out
